@@ -85,6 +85,38 @@ termination_by
 decreasing_by
   exact unvisited_lt _ _ _ p hg (by simpa using hv)
 
+set_option linter.unusedVariables false in
+/-- `findField` with a counter: the same lookup, and the number of cross-references it follows.
+Every cross-reference followed costs the pinned code two Python stack frames
+(`_find_crossref_field` and the parent's `_find_field`); proposed_fixes/C14-3 turns the
+recursion into a loop, so that the count bounds iterations, not stack depth. -/
+def findFieldHops (bibData : Option BibData) (visited : List Str) (e : Entry) (name : Str) : Option Str × Nat :=
+  match e.fields.getItem name with
+  | some v => (some v, 0)
+  | none =>
+    match findPersonField e name with
+    | some v => (some v, 0)
+    | none =>
+      match bibData with
+      | none => (none, 0)
+      | some db =>
+        match e.fields.getItem xrefName with
+        | none => (none, 0)
+        | some x =>
+          if hv : visited.contains (lower x) then (none, 0)
+          else
+            match hg : db.entries.getItem x with
+            | none => (none, 0)
+            | some p =>
+              let r := findFieldHops bibData (lower x :: visited) p name
+              (r.1, r.2 + 1)
+termination_by
+  match bibData with
+  | none => 0
+  | some db => unvisited db.entries.dict visited
+decreasing_by
+  exact unvisited_lt _ _ _ p hg (by simpa using hv)
+
 /-- the public entry point `entry._find_field(name, bib_data)` -/
 def Entry.findField (e : Entry) (name : Str) (bibData : Option BibData) : Option Str :=
   Pybtex.findField bibData [] e name
@@ -117,6 +149,23 @@ def templateField (ctx : Option BibData) (e : Entry) (name : Str) : Except Str S
   match e.findField name ctx with
   | some v => .ok v
   | none => .error name
+
+/-- template node `names(role)`: `context['entry'].persons[role]` — the entry's OWN persons, the
+database in the context is not consulted (no inheritance through `crossref`);
+`Except.error role` = `FieldIsMissing(role, entry)`. -/
+def templateNames (ctx : Option BibData) (e : Entry) (role : Str) : Except Str (List Str) :=
+  match e.persons.getItem role with
+  | some ps => .ok ps
+  | none => .error role
+
+/-- the `names` node in the context the Python engine builds -/
+def pythonEngineNames (db : BibData) (e : Entry) (role : Str) : Except Str (List Str) :=
+  templateNames (some db) e role
+
+/-- what the label styles (`alpha`: `entry.persons`, `entry.fields['year']`) and the sorting style
+`author_year_title` (`entry.persons`, `entry.fields.get('year', '')`, `…get('title', '')`) read:
+the entry's own field, never the parent's -/
+def styleReadsField (e : Entry) (name : Str) : Option Str := e.fields.getItem name
 
 /-- `format_bibliography(bib_data, …)` → `format_entries(entries, bib_data)` →
 `format_entry(label, entry, bib_data)`: the context of every entry carries the database. -/
